@@ -23,7 +23,7 @@ inductive Cfg where
   | fb (kind : FbKind) (fci : FciB) (padding : UInt8) (sender media : UInt32)
   | pb (inner : Cfg)
   | compound (ms : List Cfg)
-  | custom (b : CustomBuilder) (some0 : Bool)
+  | custom (b : CustomBuilder) (some0 : Bool) (count : Nat)
   | chunk (b : SdesChunkBuilder)
   | item (b : SdesItemBuilder)
   | fci (f : FciB)
@@ -177,6 +177,21 @@ def parseUnknownCall : Sexp → Option UnknownCall
   | .list [.atom "count", n] => do pure (UnknownCall.count (u8 (← n.toNat?)))
   | _ => none
 
+/-- `(custom PT MIN BODY CALL*)` / `(custom16 PT MIN BODY CALL*)` (PROTOCOL.md §6) -/
+def evalCustom (pt min body : Sexp) (calls : List Sexp) : Option Cfg := do
+  let p ← pt.toNat?
+  let m ← min.toNat?
+  let bd ← body.toBytes?
+  let (b, some0, count) ← calls.foldlM (fun ((b, some0, count) : CustomBuilder × Bool × Nat) c =>
+    match c with
+    | .list [.atom "probe"] => pure (b, some0, count)
+    | .list [.atom "padding", n] => do pure (b.setPadding (u8 (← n.toNat?)), some0, count)
+    | .list [.atom "pad_style", .atom "some0"] => pure (b, true, count)
+    -- `(count N)`: the count the third-party writer hands to `write_header_unchecked`
+    | .list [.atom "count", n] => do pure (b, some0, ← n.toNat?)
+    | _ => none) (({ pt := u8 p, min := m, body := bd } : CustomBuilder), false, 0)
+  pure (.custom b some0 count)
+
 partial def evalBuilder : Sexp → Option Cfg
   | .list (.atom "app" :: ssrc :: name :: calls) => do
     let s ← ssrc.toNat?
@@ -208,21 +223,14 @@ partial def evalBuilder : Sexp → Option Cfg
     let ms := (stripViaDefault ms).filter (fun m => match m with | .list [.atom "probe"] => false | _ => true)
     let l ← ms.mapM evalBuilder
     if l.all (fun c => match c with | .chunk _ | .item _ | .fci _ => false | _ => true) then pure (.compound l) else none
-  | .list (.atom "custom" :: pt :: min :: body :: calls) => do
-    let p ← pt.toNat?
-    let m ← min.toNat?
-    let bd ← body.toBytes?
-    let (b, some0) ← calls.foldlM (fun ((b, some0) : CustomBuilder × Bool) c =>
-      match c with
-      | .list [.atom "probe"] => pure (b, some0)
-      | .list [.atom "padding", n] => do pure (b.setPadding (u8 (← n.toNat?)), some0)
-      | .list [.atom "pad_style", .atom "some0"] => pure (b, true)
-      | _ => none) (({ pt := u8 p, min := m, body := bd } : CustomBuilder), false)
-    pure (.custom b some0)
+  | .list (.atom "custom" :: pt :: min :: body :: calls) => evalCustom pt min body calls
+  -- `custom16` (the family overriding `MAX_COUNT` with 16) is `custom` on the model, which has no
+  -- notion of `MAX_COUNT`
+  | .list (.atom "custom16" :: pt :: min :: body :: calls) => evalCustom pt min body calls
   | .list [.atom "unit", pt] => do
     -- the zero-sized third-party writer: exactly `(custom PT 8 00000000)`
     let p ← pt.toNat?
-    pure (.custom ({ pt := u8 p, min := 8, body := [0, 0, 0, 0] } : CustomBuilder) false)
+    pure (.custom ({ pt := u8 p, min := 8, body := [0, 0, 0, 0] } : CustomBuilder) false 0)
   | s@(.list (.atom "chunk" :: _)) => do pure (.chunk (← evalChunk s))
   | s@(.list (.atom "item" :: _)) => do pure (.item (← evalItem s))
   | s => do pure (.fci (← evalFci s))
@@ -231,6 +239,16 @@ def fbBuilder (k : FbKind) (f : FciB) (p : UInt8) (s m : UInt32) : FbBuilder :=
   { kind := k, fci := f.toFci, padding := p, senderSsrc := s, mediaSsrc := m }
 
 instance : Inhabited Writer := ⟨⟨.panic, fun _ => .panic, none⟩⟩
+
+/-- `CustomBuilder.writeUnchecked` with the header count `count` instead of 0 (PROTOCOL.md §6,
+    `(count N)`): the count octet is `count & 0x1f` (the model has no notion of `MAX_COUNT`). -/
+def customWrite (b : CustomBuilder) (count : UInt8) (buf : Bytes) : R WriteError (Bytes × Nat) := do
+  let buf ← writeHeader b.pt b.padding (count &&& 0x1f) buf
+  let e := 4 + b.body.length
+  let buf ← copyAt buf 4 e b.body
+  let buf ← fillAt buf e b.bodyEnd 0
+  let (buf, k) ← withTail buf b.bodyEnd (writePadding b.padding)
+  pure (buf, b.bodyEnd + k)
 
 /-- The model writer a configuration denotes. -/
 partial def Cfg.toWriter : Cfg → Writer
@@ -253,9 +271,12 @@ partial def Cfg.toWriter : Cfg → Writer
     | .fb .payload f p s m => (PacketBuilder.pfb (fbBuilder .payload f p s m)).toWriter
     | other => other.toWriter
   | .compound ms => CompoundBuilder.toWriter (ms.map Cfg.toWriter)
-  | .custom b some0 =>
+  | .custom b some0 count =>
+    -- `(count N)`: the model's custom writer passes count 0; with another count the same writer
+    -- (`CustomBuilder.writeUnchecked`) is replayed with that count in its `writeHeader` call
+    let w := if count == 0 then b.toWriter else { b.toWriter with write := customWrite b (u8 count) }
     -- `(pad_style some0)`: the third-party writer answers `Some(padding)` even for padding 0
-    if some0 then { b.toWriter with getPadding := some b.padding } else b.toWriter
+    if some0 then { w with getPadding := some b.padding } else w
   | .chunk b => ⟨b.calcSize, b.writeUnchecked, none⟩
   | .item b => ⟨b.calcSize, b.writeUnchecked, none⟩
   | .fci f => f.toFci.w
@@ -272,7 +293,7 @@ partial def Cfg.rtKind : Cfg → Option PKind
   | .fb .payload .. => some .pfb
   | .pb inner => inner.rtKind
   | .compound _ => some .compound
-  | .custom b _ => some (.custom b.pt b.min)
+  | .custom b _ _ => some (.custom b.pt b.min)
   | .chunk _ | .item _ | .fci _ => none
 
 def fillBuf (len : Nat) (fill : Sexp) : Option Bytes :=
@@ -297,6 +318,8 @@ def parsePKind : Sexp → Option PKind
   | .atom "rb" => some .rb | .atom "nack" => some .nack | .atom "fir" => some .fir | .atom "sli" => some .sli
   | .atom "rpsi" => some .rpsi | .atom "pli" => some .pli
   | .list [.atom "custom", pt, min] => do pure (.custom (u8 (← pt.toNat?)) (← min.toNat?))
+  -- the model has no notion of `MAX_COUNT`: `custom16` is `custom`
+  | .list [.atom "custom16", pt, min] => do pure (.custom (u8 (← pt.toNat?)) (← min.toNat?))
   | _ => none
 
 def customPts : List Nat := [0, 192, 199, 200, 204, 207, 208, 242, 255]
@@ -304,10 +327,15 @@ def customPts : List Nat := [0, 192, 199, 200, 204, 207, 208, 242, 255]
 def customGrid (pt : UInt8) (min : Nat) : Bool :=
   customPts.contains pt.toNat && [4, 6, 8, 12, 13, 20].contains min
 
-partial def Cfg.customsOk : Cfg → Bool
-  | .custom b _ => customGrid b.pt b.min
-  | .compound ms => ms.all Cfg.customsOk
-  | _ => true
+/-- the first third-party builder (in request order) that is off the grid (`custom-grid`) or asks
+    for a count above 31 (`custom-count`); `none` when all are fine -/
+partial def Cfg.customsBad : Cfg → Option String
+  | .custom b _ count =>
+    if !customGrid b.pt b.min then some "custom-grid"
+    else if count > 31 then some "custom-count"
+    else none
+  | .compound ms => ms.findSome? Cfg.customsBad
+  | _ => none
 
 /-- the RFC image of a configuration (Spec layer) -/
 partial def Cfg.image : Cfg → Bytes
@@ -320,7 +348,9 @@ partial def Cfg.image : Cfg → Bytes
   | .fb k f p s m => Spec.fbImage k f p s m
   | .pb inner => inner.image
   | .compound ms => (ms.map Cfg.image).flatten
-  | .custom b _ => Spec.customImage b
+  | .custom b _ count =>
+    -- `Spec.customImage` with the count of `(count N)` (0 without one) in the header
+    Spec.packet b.pt count b.padding (b.body ++ List.replicate (b.min - 4 - b.body.length) 0)
   | .chunk b => Spec.chunkImage b
   | .item b => Spec.itemImage b
   | .fci f => Spec.fciImage f
@@ -331,7 +361,7 @@ partial def Cfg.effPadding : Cfg → UInt8
   | .sdes b => b.padding | .unknown b => b.padding | .fb _ _ p _ _ => p
   | .pb inner => inner.effPadding
   | .compound ms => match ms.getLast? with | some m => m.effPadding | none => 0
-  | .custom b _ => b.padding
+  | .custom b _ _ => b.padding
   | _ => 0
 
 /-- the violated rules (Spec layer) -/
@@ -348,7 +378,7 @@ partial def Cfg.violations : Cfg → List WriteError
     let n := ms.length
     ((ms.zipIdx).map (fun (m, i) =>
       m.violations ++ (if i + 1 != n && m.effPadding != 0 then [WriteError.nonLastCompoundPacketPadding] else []))).flatten
-  | .custom b _ => Spec.customRules b
+  | .custom b _ _ => Spec.customRules b
   | .chunk b => Spec.chunkRules b
   | .item b => Spec.itemRules b
   | .fci f => Spec.fciRules f
@@ -364,7 +394,7 @@ def execBuild (b : Sexp) (bufs : List Sexp) : Out := Id.run do
   match evalBuilder b with
   | none => return #[("bad-request", "builder")]
   | some cfg =>
-    if !cfg.customsOk then return #[("bad-request", "custom-grid")]
+    if let some why := cfg.customsBad then return #[("bad-request", why)]
     let w := cfg.toWriter
     let mut o : Out := #[]
     let standalone := match cfg with | .chunk _ | .item _ => true | _ => false
@@ -421,7 +451,7 @@ def execInterleave (a b : Sexp) : Out := Id.run do
   if !viaDefaultOk a || !viaDefaultOk b then return #[("bad-request", "via_default")]
   match evalBuilder a, evalBuilder b with
   | some ca, some cb =>
-    if !ca.customsOk || !cb.customsOk then return #[("bad-request", "custom-grid")]
+    if let some why := ca.customsBad <|> cb.customsBad then return #[("bad-request", why)]
     if !ca.isPacket || !cb.isPacket then return #[("bad-request", "interleave")]
     let wa := ca.toWriter
     let wb := cb.toWriter
@@ -489,14 +519,21 @@ def execHelper (args : List Sexp) : Out :=
   let maxLen := 1 <<< 20
   match args with
   | [.atom "write_header", pt, padding, count, len, fill] =>
-    match pt.toNat?, padding.toNat?, count.toNat?, len.toNat? with
-    | some pt, some p, some c, some l =>
+    -- P: a bare PT (`Custom<PT, 4>`) or the third-party type itself, `(custom PT MIN)` /
+    -- `(custom16 PT MIN)`; only its packet type reaches the header
+    let ptOf : Option (Nat × Nat) :=
+      match pt with
+      | .list [.atom fam, p, m] =>
+        if fam == "custom" || fam == "custom16" then do pure (← p.toNat?, ← m.toNat?) else none
+      | _ => do pure (← pt.toNat?, 4)
+    match ptOf, padding.toNat?, count.toNat?, len.toNat? with
+    | some (pt, min), some p, some c, some l =>
       if l > maxLen then bad
       else
         match fillBuf l fill with
         | none => bad
         | some buf =>
-          if !customPts.contains pt then #[("bad-request", "custom-grid")]
+          if !customGrid (u8 pt) min || pt > 255 then #[("bad-request", "custom-grid")]
           else
             match (writeHeader (u8 pt) (u8 p) (u8 c) buf : R Unit Bytes) with
             -- the Rust returns the number of header bytes
@@ -568,7 +605,7 @@ def execRequest (line : String) : Out :=
     match evalBuilder b with
     | none => #[("bad-request", "builder")]
     | some cfg =>
-      if !cfg.customsOk then #[("bad-request", "custom-grid")]
+      if let some why := cfg.customsBad then #[("bad-request", why)]
       else
         match cfg with
         | .chunk _ | .item _ => #[]
